@@ -57,6 +57,8 @@ pub enum Tok {
     Periodic { seed: u64, period: u8, n: u32 },
     Word { level: u8, variant: u8 },
     WordFF { variant: u8 },
+    /// a non-zero 7-byte window whose rolling value is 0, followed by `zeros` zero bytes
+    ZeroTrap { variant: u8, zeros: u32 },
     Lit { bytes: Vec<u8> },
     File { i: u8 },
     /// words that put the piece counts of levels t-1, t, t+1 on chosen values
@@ -134,6 +136,10 @@ impl Tok {
             Tok::WordFF { variant } => {
                 out.extend_from_slice(&wt.ff[*variant as usize % wt.ff.len()]);
             }
+            Tok::ZeroTrap { variant, zeros } => {
+                out.extend_from_slice(&wt.zero[*variant as usize % wt.zero.len()]);
+                out.resize(out.len() + *zeros as usize, 0);
+            }
             Tok::Lit { bytes } => out.extend_from_slice(bytes),
             Tok::File { i } => {
                 let f = repo_files();
@@ -199,7 +205,7 @@ impl Prog {
     pub fn word_positions_hint(&self) -> usize {
         self.toks
             .iter()
-            .filter(|t| matches!(t, Tok::Word { .. } | Tok::Aimed { .. } | Tok::WordFF { .. }))
+            .filter(|t| matches!(t, Tok::Word { .. } | Tok::Aimed { .. } | Tok::WordFF { .. } | Tok::ZeroTrap { .. }))
             .count()
     }
 }
@@ -229,6 +235,7 @@ pub fn tok_simple(max_n: u32) -> impl Strategy<Value = Tok> {
         2 => (any::<u64>(), 1u8..=64, size_log_uniform(max_n)).prop_map(|(seed, period, n)| Tok::Periodic { seed, period, n }),
         3 => (level_any(), 0u8..4).prop_map(|(level, variant)| Tok::Word { level, variant }),
         1 => (0u8..2).prop_map(|variant| Tok::WordFF { variant }),
+        1 => (0u8..3, prop_oneof![0u32..=16, size_log_uniform(max_n)]).prop_map(|(variant, zeros)| Tok::ZeroTrap { variant, zeros }),
         1 => vec(any::<u8>(), 0..16).prop_map(|bytes| Tok::Lit { bytes }),
         1 => any::<u8>().prop_map(|i| Tok::File { i }),
     ]
